@@ -14,7 +14,8 @@ CLAIMED = {
               "discharged (unsat of the negated goal) for all real temperatures, range ends and free-energy values: "
               "e=T dp-p, w=T dp, de=de/dT, csq*de=dp in all three regions; dp and ddp are the derivatives of the reported "
               "p and dp in all three regions; p=-f inside; p, dp, ddp continuous at all four range ends after "
-              "setExtrapolate (pins all 12 extrapolation coefficients)."),
+              "setExtrapolate (pins all 12 extrapolation coefficients)."
+          " Whenever a table is installed (_interpolate, setExtrapolationType) the derivative splines are those of the new spline (shared with C18)."),
         note=("Assumed: FreeEnergy(T).veffValue is f(T) and FreeEnergy.derivative(T,k) its k-th derivative (spline contract); "
               "floats are reals; every denominator occurring is non-zero; for symbolic exponents only b**(x+y)=b**x*b**y, "
               "b**(-x)=1/b**x and b>0 => b**x>0. Trusted: wgvc interpreter/encoder, sympy normalisation and diff, z3."),
@@ -58,7 +59,8 @@ CLAIMED["C05"] = dict(
           "and tolerances as stated; the convergence flag is never read before it is written (stale-state frame obligation)."
           " A path that returns the runaway sentinel without its evidence gets the same obligation (nothing implies it). Root finds are identified by their call site."
           " Class frame of Hydrodynamics (on the AST): no method other than the constructor writes the window constants (vJ, vMin, ranges, tolerances); per-call state is the convergence flag and the two phase-trace-limit flags."
-          " The template LTE machinery of the anchors (template findvwLTE, _eqWall, solveAlpha, maxAl) is discharged here as well (shared with C15)."),
+          " The template LTE machinery of the anchors (template findvwLTE, _eqWall, solveAlpha, maxAl) is discharged here as well (shared with C15)."
+          " WallGoManager._initHydrodynamics builds a fresh Hydrodynamics from the thermodynamics of this setup and the configured range/tolerances and reads nothing an earlier setup left on the manager; wallSpeedLTE is findvwLTE() of that object."),
     note=COMMON_NOTE + " Not decided: 'one sign over the whole window' (needs monotonicity of the mismatch), uniqueness of the matching at the root.",
     design="3 (C05)")
 CLAIMED["C06"] = dict(
@@ -70,7 +72,8 @@ CLAIMED["C06"] = dict(
           "returned value and range flags on every path."
           " strongestShock (plasma at rest in front, p+(T+)=p-(TMinHydro), result = solveHydroShock(vw,0,T+) at a converged root, 0 iff not bracketed); minVelocity (root of strongestShock(vw)-Tn on (vBracketLow,vJ), 0 iff not bracketed); Hydrodynamics.__init__ (vJ from findJouguetVelocity, template value only on WallGoError; vMin=max(1e-3,minVelocity()); temperature range (tmin,tmax)*Tn; phase ranges; flags)."
           " Class frame of Hydrodynamics as in C05. Template-model solver methods called from the general solver are values of another implementation (uninterpreted), never inlined."
-          " Class frame of the template model and its matching/minVelocity obligations are discharged here as well (shared with C15)."),
+          " Class frame of the template model and its matching/minVelocity obligations are discharged here as well (shared with C15)."
+          " The EOS obligations of C10 (in particular csqLowT = dp/de in every region of the phase's own range) are discharged here as well."),
     note=COMMON_NOTE + " Not decided: 0<v<1, v+<v-, T+>Tn, weak-vs-strong selection by the numerical bracket, monotonicity of T(vw).",
     design="3 (C06)")
 
@@ -82,7 +85,8 @@ CLAIMED["C17"] = dict(
           "sigmoid, bilinear lower bound (1-smoothing) L/r); compact origin -> wall centre, p_z(0)=0, p_par(-1)=0; centre slope = L/r with aIn/aOut "
           "from _updateParameters (closed forms proved); Grid.compactify and decompactify are mutually inverse; after every change*FalloffScale the "
           "cached coordinates and Jacobians equal the maps of the current parameters. Known finding F3: the inverse offered by Grid3Scales."
-          " Constructors (M=N=3, both spacings): parameters are the arguments (in particular the wall centre), nodes symmetric, cache current."),
+          " Constructors (M=N=3, both spacings): parameters are the arguments (in particular the wall centre), nodes symmetric, cache current."
+          " decompactify, compactify and compactificationDerivatives do not modify the arrays they are given."),
     note=COMMON_NOTE + " Requires smoothing < 1 (documented in the class docstring, not asserted by the code; for smoothing > 1 the Jacobian is "
          "negative near the ends). artanh(u+0j).real is read as Re artanh with derivative u'/(1-u^2). Large equational goals are normalised by "
          "polynomial expansion (sympy) before the solver sees them. Not decided: that callers pass smoothing < 1.",
@@ -96,7 +100,7 @@ CLAIMED["C19"] = dict(
           "epsilon) for 2 and 3 variables; Hessian stencils exact to total degree order+1 with dx_i*dx_j divisor and axis selection."
           " EffectivePotential.derivT/derivField/deriv2FieldT/deriv2Field2/allSecondDerivatives are run end to end through the real helpers on a generic cubic polynomial potential of two fields and T: each returns exactly the partial derivatives it is named after (axes, scales, slicing, private combined-scales array), and derivT never evaluates at a negative temperature."),
     note=COMMON_NOTE + " Rounding is not modelled ((x+dx)-x == dx exactly). Bounded and labelled as such in the evidence: output shape for array "
-         "inputs is checked for length-2 arrays / a (2,2) batch only; 3-variable order-4 gradient uses degree 2 per variable.",
+         "inputs is checked for length-2 arrays / a (2,2) batch only; 3-variable order-4 gradient uses degree 2 per variable." + " Not modelled: array dtypes (an integer fields array that truncates the temperature is not seen; seed C19e ends undecided).",
     design="3 (C19)")
 
 CLAIMED["C01"] = dict(
@@ -113,7 +117,8 @@ CLAIMED["C01"] = dict(
           "two flags are written; collaborator calls inside an allow-list); free energies evaluated inside their table. "
           "findWallVelocityDetonation with a loop contract: every solution comes from solveWall on a step whose ends have pressures <=0 and "
           ">=0; RUNAWAY only if the pressure was non-positive at every velocity evaluated, including the top of the window."
-          " Body of wallPressure under a loop contract (pressures list abstracted by length class 1,2,3,>=4): hydro data returned are those of findHydroBoundaries at the velocity asked; on a converged exit the four outputs are those of ONE evaluation (the last), the exit test held, the flag is the True written at the start; on the iteration-limit exit the flag is False and the pressure the mean of the last (up to four) evaluations. _getNextPressure: chained evaluations with the same boundary data, Aitken point for oscillating pressures, outputs of the last evaluation, err as stated."),
+          " Body of wallPressure under a loop contract (pressures list abstracted by length class 1,2,3,>=4): hydro data returned are those of findHydroBoundaries at the velocity asked; on a converged exit the four outputs are those of ONE evaluation (the last), the exit test held, the flag is the True written at the start; on the iteration-limit exit the flag is False and the pressure the mean of the last (up to four) evaluations. _getNextPressure: chained evaluations with the same boundary data, Aitken point for oscillating pressures, outputs of the last evaluation, err as stated."
+          " Every configured tolerance and bound (errTol, maxIterations, pressRelErrTol, conserveEnergyMomentum, thickness and offset bounds) reaches the EOM that setupWallSolver builds."),
     note=COMMON_NOTE + " Assumed contract of EOM.wallPressure (its inner pressure iteration and Nelder-Mead are not verified): deterministic "
          "function of its arguments and pressAbsErrTol; frame = the two flags. Brackets narrower than the hard-wired 1e-10 are excluded. "
          "helpers.nextStepDeton is an assumed contract (returns a velocity between pos2 and posMax). "
@@ -138,7 +143,8 @@ CLAIMED["C09"] = dict(
           "at constant T and without Delta00 the integrand is d/dz V(phi(z))."
           " The weight dz/dchi is the derivative of the position map of Grid and Grid3Scales (callee contract re-discharged here; counter-models are replayed natively)."
           " _updateGrid: the wall region of the re-mapped grid is the envelope of the walls of all fields (contains each interval [(-1-d_i)L_i, (1-d_i)L_i], both ends attained); tails long enough for the grid's own assertion."
-          " Also discharged here: the minimiser box is the configured one; _getNextPressure passes profiles and boundary data through unchanged (shared with C01); EffectivePotential.derivField end to end through the real stencils (shared with C19)."),
+          " Also discharged here: the minimiser box is the configured one; _getNextPressure passes profiles and boundary data through unchanged (shared with C01); EffectivePotential.derivField end to end through the real stencils (shared with C19)."
+          " The z-quadrature of the real Polynomial.integrate on a grid with M != N (4,5) carries the Gauss-Chebyshev-Lobatto weights pi/M (shared with C16)."),
     note=COMMON_NOTE + " Not claimed: numerical equality with V(low)-V(high) (quadrature and finite-difference accuracy). Nelder-Mead by stub "
          "(returns arbitrary parameters). Checked on 2 fields x 2 grid points x 2 particles with elementwise expressions.",
     design="3 (C09)")
@@ -162,7 +168,8 @@ CLAIMED["C13"] = dict(
           "applying pointwise weights, integrates over axes (2,3) with W00=(dpz/drz)(dpp/drp) pp/(4 pi^2 E), W02=pz^2 W00, W20=E^2 W00, W11=E pz W00, "
           "E^2=m^2(z)+pz^2+pp^2, and returns the four moments in order."
           " estimateTruncationError, which getDeltas calls on the same array before the moments are taken, does not modify its argument in any of the four basis configurations (real Polynomial code, aliasing modelled by real numpy arrays)."
-          " BoltzmannDeltas / BoltzmannResults arithmetic (+, -, number*, *number) acts on each moment (and on deltaF, Deltas) separately: linear combinations of moment sets are the moment sets of the linear combinations."),
+          " BoltzmannDeltas / BoltzmannResults arithmetic (+, -, number*, *number) acts on each moment (and on deltaF, Deltas) separately: linear combinations of moment sets are the moment sets of the linear combinations."
+          " After Grid.changeMomentumFalloffScale the cached momenta AND Jacobians are those of the new scale (pre-state: cache current for the old scale; shared with C17)."),
     note=COMMON_NOTE + " Linearity and quadrature exactness are delegated to the contract of Polynomial.integrate/changeBasis (C16). Checked on "
          "2 particles and a 2x2x2 symbolic grid; the expressions are elementwise.",
     design="3 (C13)")
@@ -172,7 +179,8 @@ CLAIMED["C14"] = dict(
           "[i,:,:,j,:,:]; a missing file (each one), an oversized target grid and a size mismatch without interpolation raise CollisionLoadError; "
           "loadCollisions keeps the previously installed array on every exceptional path; changeBasis leaves the operator's action on every "
           "distribution unchanged in both directions (inverse-transpose rule); interpolateCollisionArray gives, per pair (a,b), the source operator "
-          "evaluated at the target grid points truncated to low orders, for 1 and 2 particles (F2 fixed), and does not modify its input."),
+          "evaluated at the target grid points truncated to low orders, for 1 and 2 particles (F2 fixed), and does not modify its input."
+          " A second, opposite basis change on the same grid object leaves the operator action unchanged (nothing cached by the first conversion is reused for a different one)."),
     note=COMMON_NOTE + " h5py.File by assumed contract. Grid sizes: stored N=5 -> target N=3 for interpolation, N=3 for loading and basis change; "
          "3-particle interpolation not run (cost).",
     design="3 (C14)")
@@ -182,7 +190,8 @@ CLAIMED["C16"] = dict(
           "grids (M,N) in {(3,3),(4,5)}: evaluate, cardinal<->Chebyshev round trip, derivative exact at all grid points incl. boundaries from "
           "both bases, GCL integration weights incl. half weights, in z/pz/pp with and without endpoints; rank-2 (Array,pz) independence."
           " Rank 2 with two polynomial axes (z, pz), all endpoint combinations and three basis pairs: evaluate returns the value of the bivariate polynomial at a generic point (bounded M=N=3)."
-          " One changeBasis call converting two equal axes (pz, pz) in opposite directions preserves the polynomial."),
+          " One changeBasis call converting two equal axes (pz, pz) in opposite directions preserves the polynomial."
+          " Rank 3 (Array, z, pz): the derivative along the last axis is exact and leaves the order of the other axes alone."),
     note="Bound: grid sizes listed; within a size every polynomial of the space is covered (symbolic coefficients). eval_chebyt/u and "
          "linalg.inv are sympy closed forms. The all-sizes index agreement planned in DESIGN was not built.",
     design="3 (C16)")
@@ -195,7 +204,8 @@ CLAIMED["C15"] = dict(
           "(c1, c2, velocityMid with the template EOS); __init__ definitions of alN, psiN, cb2, cs2, mu, nu, wN, pN; vJ and detonationVAndT in C06."
           " Also under contract: template findvwLTE (static sentinel exactly when p+(Tn)>p-(Tn) or the vacuum energy of the symmetric phase is non-positive, runaway sentinel reasons, bracketed root of the shooting residual), findMatching (window, bracket, residual, v-=min(cb,vw), alpha+ solves the wall relation, T+ from the enthalpy, T- from _findTm), matchDeflagOrHybInitial, minVelocity, _eqWall (3 nu _eqWall = E - R: entropy-derived vs energy-flux-derived enthalpy ratio), solveAlpha (bracket above 0 and above the vacuum bound, branch choice, tolerances), maxAl.<matching> (shock jump conditions at the front, alpha+ relation, _eqWall form)."
           " The bracket of the template findMatching ends below the point where the enthalpy w+ changes sign whenever that point lies inside (0, min(cs^2/vw, vw)) (lemma: the sign change is a root of an explicit quadratic Q). Class frame: no template method other than the constructor writes an attribute."
-          " Both efficiencyFactor contracts and the template integratePlasma/_dxiAndWdv obligations (shared with C03) are discharged here as well."),
+          " Both efficiencyFactor contracts and the template integratePlasma/_dxiAndWdv obligations (shared with C03) are discharged here as well."
+          " The general solver's strongestShock/minVelocity obligations (bracket (vBracketLow, vJ), residual, sentinel) are discharged here as well (shared with C06)."),
     note=COMMON_NOTE + " Power laws used for symbolic exponents: b^(x+y)=b^x b^y, b^(-x)=1/b^x, (b^x)^y=b^(xy), (ab)^x=a^x b^x offered only as a conditional law "
          "(all factors positive => equal; nothing is assumed about their signs). Not decided: numerical agreement of the two root finders to tolerance, uniqueness of the physical root, vwLTE/kappa agreement.",
     design="3 (C15)")
@@ -210,7 +220,7 @@ CLAIMED["C18"] = dict(
           " extendInterpolationTable on a 3-row table (0 or 2 new points per side, all 16 combinations): new lower points ++ old rows with their old values ++ new upper points, ordinates belong to their abscissae, strictly increasing, function evaluated only at the new points, adaptive bookkeeping reset."
           " Outside the table derivative() differentiates the mode-respecting evaluation (_evaluateOutOfBounds of the same object), at the out-of-range entries only."),
     note="Bound: array length <= 2, rank <= 2, components <= 2. Not decided: spline accuracy, adaptive updates, extendInterpolationTable "
-         "(np.arange with symbolic bounds), file round trip.",
+         "(np.arange with symbolic bounds), file round trip." + " Not modelled: text formatting/parsing of floats (a change of the savetxt format is not seen; seed C18e).",
     design="3 (C18)")
 
 CLAIMED["C07"] = dict(
@@ -222,7 +232,8 @@ CLAIMED["C07"] = dict(
           "template __init__ (alN, psiN, cb2, cs2, mu, nu dimensionless; wN, pN, epsilon pressures), vJ, getVp, _findTm, boundary constants; EOM "
           "plasmaVelocity, T33 balance, wallProfile (field, field/length), _updateGrid (lengths), the initial wall 5/Tn, and the bounds handed to "
           "Nelder-Mead (each has the dimension of the parameter it bounds); WallGoManager.buildGrid (lengths in units of 1/Tn); both grid maps."
-          " The wall-action minimiser's stopping rule is unit safe (Nelder-Mead or Powell; gradient-based methods with absolute default tolerances are refused)."),
+          " The wall-action minimiser's stopping rule is unit safe (Nelder-Mead or Powell; gradient-based methods with absolute default tolerances are refused)."
+          " The declared absolute-tolerance site of findPlasmaProfilePoint is checked against the code: the only comparison involving Tnucl is |Tnucl - Tplus| < 1e-10."),
     note=COMMON_NOTE + " The premise of the property (the potential, masses and EOS are rescaled accordingly) enters as homogeneity of the spec "
          "functions. Declared absolute-tolerance sites are listed in the evidence as assumptions, not proved harmless: xtol=atol on temperature root "
          "finds, pressAbsErrTol=1e-8, |Tn-T+|<1e-10 and xtol=1e-10 in findPlasmaProfilePoint, the 1e50 literal in vpvmAndvpovm. Not covered: "
@@ -234,7 +245,8 @@ CLAIMED["C08"] = dict(
           "signs with s^2=1) and the swap, with potential / gradient / masses transformed consistently: wallProfile returns A fields + b and A dPhidz; "
           "EOM.action is invariant; the pressure integrand of _intermediatePressureResults is invariant under translation+reflection; the T33 balance is "
           "invariant; _updateGrid passes the same thickness, centre and tails when widths/offsets are swapped."
-          " The box handed to the wall-action minimiser is the configured two-sided one (widths between wallThicknessBounds/Tn, free offsets between wallOffsetBounds)."),
+          " The box handed to the wall-action minimiser is the configured two-sided one (widths between wallThicknessBounds/Tn, free offsets between wallOffsetBounds)."
+          " _updateGrid: the grid's wall region is the envelope of the walls of all fields (shared with C09)."),
     note=COMMON_NOTE + " Premise: callbacks transformed consistently. Declared site: the first offset is pinned to 0, so the swap is not applied to the "
          "minimisation in _intermediatePressureResults. Not decided: Nelder-Mead / phase tracer / BFGS behaviour under relabelling, more than two fields.",
     design="3 (C08)")
